@@ -239,8 +239,10 @@ class PopenExecutor(concurrent.futures.Executor):
         with self._lock:
             futures = list(self._futures)
 
-        with contextlib.suppress(concurrent.futures.CancelledError):
-            for future in futures:
+        # the outcome of a job (result, timeout, spawn failure, cancellation) belongs to its own waiters:
+        # it must not end the wait for the remaining jobs
+        for future in futures:
+            with contextlib.suppress(Exception):
                 future.result()
 
 
